@@ -2252,10 +2252,22 @@ class KmipEngine(object):
 
                     # Fetch the attribute from the object and check if it
                     # matches. If not, the object doesn't match, so skip it.
-                    attribute = self._get_attribute_from_managed_object(
-                        managed_object,
-                        name
-                    )
+                    try:
+                        attribute = self._get_attribute_from_managed_object(
+                            managed_object,
+                            name
+                        )
+                    except AttributeError:
+                        # The rule table calls the attribute applicable but
+                        # the object cannot carry it (e.g., the cryptographic
+                        # algorithm of a certificate), so it cannot match.
+                        self._logger.debug(
+                            "Failed match: "
+                            "the specified attribute ({}) is not available "
+                            "for the object.".format(name)
+                        )
+                        add_object = False
+                        break
                     if attribute is None:
                         continue
                     elif name == "Application Specific Information":
